@@ -40,7 +40,7 @@ EXPLANATION = ("Exhaustive sub-space (both tiers): every labelled graph up to is
                "anchor, the VF2 enumerations and the WL-1 colours after 0,1,2,10 rounds are compared with the model and with brute force.  "
                "Everything else is seeded random / "
                "corpus sampling.  Theorems (coq/props/C11.v, all closed under the global context): C11_vocabulary, C11_aut_count, C11_aut_group, "
-               "C11_vf2_contract, C11_vf2_contract_items, C11_orbits_exact, C11_orbits_partition, C11_components, C11_wl_never_splits, C11_wfb_sound, "
+               "C11_vf2_contract, C11_vf2_contract_items, C11_orbits_exact, C11_orbits_partition, C11_components, C11_anchors, C11_wl_never_splits, C11_wfb_sound, "
                "C11_dedup_sublist, C11_dedup_first_of_class, C11_partial_prune, C11_prune_complete, C11_rep_ok, C11_prune_complete_aut, C11_prune_same_results.")
 TRUSTED_BASE = [
     "Coq 8.16.1 kernel + vm_compute (no native_compute)",
